@@ -237,6 +237,7 @@ def run(ctx, config='rel-all'):
         else:
             ctx.violation('O2', arena.short(roles['Allocator::grow']), 'in-place:missing', 'grow has no in-place extension path through the bumping function')
     copy_discipline(ctx, A, roles, specs, 'R3', 7)
+    must_copy(ctx, A, 'R7')
     check_err_untouched(ctx, db, config, roles, 'R4')
     check_alloc_defaults(ctx, db, config, 'R5')
 
@@ -395,6 +396,41 @@ def copy_discipline(ctx, A, roles, specs, RULE_NAME, floor):
             else:
                 ctx.violation(RULE_NAME, fn, 'copy:overlap', 'copy_nonoverlapping(%s -> %s, %s) has no disjointness proof (not a fresh block, and n <= dst - src is not entailed): must be ptr::copy or guarded' % (show(src)[:40], show(dst)[:80], show(n)[:40]), e.span)
     ctx.floor(RULE_NAME, ncopy, floor, 'copy sites in shrink/grow over the entry points')
+
+
+def must_copy(ctx, A, RULE='R7'):
+    """'keeps the first min(old,new) bytes': a successful shrink / grow / realloc either returns the caller's pointer itself
+    (the bytes stay where they are) or a pointer that is the destination of a copy from the caller's block made in this call.
+    (How many bytes, and that source and destination may overlap, is R3; this rule is about the copy being there at all: a
+    moved block whose contents were left behind passes every extent check.)"""
+    n = 0
+    for key in ('Allocator::shrink', 'Allocator::grow', 'Alloc::realloc'):
+        val = A.get(key)
+        if val is None:
+            continue
+        I, res, body = val
+        src_ptr = ('param', 2)
+        covered = {src_ptr}
+        for e in res.events:
+            if e.kind == 'copy' and e.callee != 'fill' and e.args[0] == src_ptr:
+                covered.update(arena.phi_leaves(e.args[1]))
+        missing = []
+        nalt = 0
+        old_sz = app('size', ('param', 3))
+        for t, fs in arena.success_payloads(I, res):
+            if any(f[0] == 'eq' and len(f) == 3 and set(f[1:]) == {C(0), old_sz} for f in fs):
+                continue        # nothing to keep: the old block is empty on this path
+            for x in arena.phi_leaves(arena.pointer_of(t)):
+                nalt += 1
+                if x not in covered:
+                    missing.append(x)
+        n += 1
+        fn = arena.short(body['id'])
+        if nalt and not missing:
+            ctx.ok(RULE, '%s: every pointer it can return is the caller\'s own or the destination of a copy from the caller\'s block' % key, '%d return alternatives' % nalt)
+        else:
+            ctx.violation(RULE, fn, 'moved-without-copy', '%s can return %s, which is neither the block it was given nor the destination of a copy from it: the first min(old,new) bytes are not preserved' % (key, show(missing[0])[:100] if missing else 'nothing'), body.get('span'))
+    ctx.floor(RULE, n, 2, 'reallocating entry points checked for the copy')
 
 
 def is_fallible_alloc(I, callee):
